@@ -248,9 +248,15 @@ fn shapes_create_dir_all() -> Vec<Case> {
 
 fn shapes_copy() -> Vec<Case> {
     let mut out = Vec::new();
-    for &size in &[0u32, 1, 5, 4096, 4097, 20000] {
+    // the last six sizes: powers of two and multiples of 4 MiB (what a copy made in bounded chunks would use as its
+    // chunk length, seeded change C14-18) with a neighbour; one plain shape each, they cost a few ms apiece
+    for &size in &[0u32, 1, 5, 4096, 4097, 20000, 1 << 16, 1 << 20, 1 << 22, (1 << 22) + 1, 1 << 23, 3 << 22] {
+        let large = size >= 1 << 16;
         // destination: absent, shorter, same length, longer
         for dst in 0..4u8 {
+            if large && dst != 0 && dst != 3 {
+                continue;
+            }
             let dlen = match dst {
                 1 => size / 2,
                 2 => size,
@@ -261,16 +267,16 @@ fn shapes_copy() -> Vec<Case> {
                 continue;
             }
             let mut vias = vec![Via::CopyFile, Via::Handle { pre: 0 }];
-            if size > 0 {
+            if size > 0 && !large {
                 vias.push(Via::Handle { pre: 1 });
                 vias.push(Via::Handle { pre: size });
             }
-            if size > 3 {
+            if size > 3 && !large {
                 vias.push(Via::Handle { pre: 3 });
             }
             for via in vias {
                 let mut clamps = vec![None];
-                if size > 4096 {
+                if size > 4096 && !large {
                     clamps.push(Some(4096));
                     clamps.push(Some(size - 1));
                     clamps.push(Some(7));
